@@ -262,7 +262,7 @@ def f64_of(term, kind):
     if kind == 'f64':
         return term
     if kind == 'int':
-        return '((_ to_fp 11 53) RNE (to_real %s))' % term
+        return '((_ to_fp 11 53) RNE ((_ int2bv 66) %s))' % term       # observed integers are Go integers of at most 64 bits
     raise ValueError(kind)
 
 
@@ -324,7 +324,8 @@ def _explore_chunk(idx):
     rep.engine_solver_s = res['solverMs'] / 1000.0
     if res.get('solverErrors'):
         rep.solver_errors = res['solverErrors'][:3]
-    z3 = core.Z3Session(timeout_ms=z3_timeout_ms)
+    # a case may ask for a longer comparison budget (attribute z3_timeout_ms); it applies to the chunk the case is in (heavy cases are alone)
+    z3 = core.Z3Session(timeout_ms=max([z3_timeout_ms] + [getattr(c, 'z3_timeout_ms', 0) for c in ch]))
     try:
         _verify_program(rep, z3, res, ch)
     finally:
